@@ -445,6 +445,9 @@ fn chained_case(ctx: &Ctx, ch: &mut Ch) -> Outcome {
     let s1 = 1 + ch.pick(d1);
     let k = 1 + ch.pick(2);
     let j = ch.pick(k + d1);
+    // The inner hole's own shift: below k it is the case of the recorded finding (the hole is
+    // copied unchanged); at or above k the lowering has to adjust or refuse it.
+    let s2 = ch.pick(d1 + k + 1);
     let r: Result<Result<&'static str, Failure>, String> = catch(|| {
         let t = |v: Variant<'static>| Term { source_range: None, variant: v };
         let int = || Rc::new(t(Variant::Integer));
@@ -458,17 +461,30 @@ fn chained_case(ctx: &Ctx, ch: &mut Ch) -> Outcome {
         let h1: Cell<'static> = Rc::new(RefCell::new(None));
         let h2: Cell<'static> = Rc::new(RefCell::new(None));
         let p1 = lams(d1, t(Variant::Unifier(h1.clone(), s1)));
-        let p2 = lams(d1 + k, t(Variant::Unifier(h2.clone(), 0)));
+        let p2 = lams(d1 + k, t(Variant::Unifier(h2.clone(), s2)));
         let p3 = lams(d1 + k, t(Variant::Variable("b", j)));
-        let input = format!("d1={d1} s1={s1} k={k} j={j}: unify({p1}, {p2}) then unify({p2}, {}) with the variable at index {j}", p3);
+        let input = format!("d1={d1} s1={s1} k={k} j={j} s2={s2}: unify({p1}, {p2}) then unify({p2}, {}) with the variable at index {j}", p3);
         let scope_ok = |cell: &Cell<'static>, scope: usize| -> Option<usize> {
             let c = cell.borrow().clone()?;
             let mut fv = BTreeSet::new();
             D::from_gram(&c).free(0, &mut fv);
             fv.iter().copied().find(|i| *i >= scope)
         };
+        // With the solutions read in, two successfully unified sides must be convertible.
+        let equal_now = |a: &Term<'static>, b: &Term<'static>| -> Option<bool> {
+            let mut names = Names::default();
+            let ka = core::from_gram(a, &mut vec![], &mut names).ok()?;
+            let kb = core::from_gram(b, &mut vec![], &mut names).ok()?;
+            let mut nbe = Nbe::new(50_000);
+            let va = nbe.eval(&ka, &None).ok()?;
+            let vb = nbe.eval(&kb, &None).ok()?;
+            nbe.conv(&va, &vb).ok()
+        };
         if !unify(&p1, &p2, &mut vec![]) {
             return Ok("chained: first unification refused");
+        }
+        if equal_now(&p1, &p2) == Some(false) {
+            return Err(Failure::new(format!("the first call succeeded but the sides now read `{p1}` and `{p2}`, which are not definitionally equal"), input));
         }
         if let Some(bad) = scope_ok(&h1, d1 - s1) {
             return Err(Failure::new(format!("after the first call the solution of ?h1 mentions index {bad} with only {} variable(s) in scope", d1 - s1), input));
@@ -479,12 +495,20 @@ fn chained_case(ctx: &Ctx, ch: &mut Ch) -> Outcome {
         if cyclic(&h1, &mut vec![]) || cyclic(&h2, &mut vec![]) {
             return Err(Failure::new("cyclic solution", input));
         }
+        // The variable must be in the inner hole's own scope, or the second call had to refuse.
+        if let Some(bad) = scope_ok(&h2, (d1 + k).saturating_sub(s2)) {
+            return Err(Failure::new(format!("the second call solved ?h2 (written with shift {s2} at depth {}) by a term mentioning index {bad}", d1 + k), input));
+        }
+        if s2 >= k && (equal_now(&p2, &p3) == Some(false) || equal_now(&p1, &p2) == Some(false)) {
+            return Err(Failure::new(format!("both calls succeeded but the sides now read `{p1}`, `{p2}` and `{p3}`, which are not all definitionally equal"), input));
+        }
         if let Some(bad) = scope_ok(&h1, d1 - s1) {
-            return Err(Failure::new(
+            let f = Failure::new(
                 format!("after the second successful call the solution of ?h1 reads `{}`: it mentions index {bad}, but ?h1 was written where only {} variable(s) are in scope", D::from_gram(&h1.borrow().clone().unwrap()).show(), d1 - s1),
                 input,
-            )
-            .with_sig(SIG_CHAIN));
+            );
+            // The recorded finding is the case in which the inner hole was copied unchanged.
+            return Err(if s2 < k { f.with_sig(SIG_CHAIN) } else { f });
         }
         Ok("chained: both unifications succeeded with well-scoped solutions")
     });
